@@ -1,0 +1,43 @@
+/* verification hooks, compiled only with -DNASA_REFINE_VERIF.
+ * Two callbacks, NULL unless a verification harness sets them; the hooks
+ * observe state, they never change it. */
+
+#ifndef REF_VERIF_H
+#define REF_VERIF_H
+
+#ifdef NASA_REFINE_VERIF
+
+#include <stddef.h>
+
+/* synchronisation points of the distributed mesh: object is a REF_GRID, or
+ * a REF_NODE for the labels starting with "node_" */
+typedef void (*REF_VERIF_SYNC_FCN)(const char *label, void *object);
+/* local operations: phase is "begin", "accept", "reject" or "end"; object is
+ * a REF_GRID, or a REF_CAVITY for kind "cavity_replace" */
+typedef void (*REF_VERIF_OP_FCN)(const char *phase, const char *kind,
+                                 void *object, int n, const int *ints);
+
+extern REF_VERIF_SYNC_FCN ref_verif_sync_fcn;
+extern REF_VERIF_OP_FCN ref_verif_op_fcn;
+
+#define ref_verif_sync(label, object)                                    \
+  {                                                                      \
+    if (NULL != ref_verif_sync_fcn)                                      \
+      ref_verif_sync_fcn((label), (void *)(object));                     \
+  }
+
+#define ref_verif_op(phase, kind, object, i0, i1, i2)                    \
+  {                                                                      \
+    if (NULL != ref_verif_op_fcn) {                                      \
+      int ref_verif_ints[3];                                             \
+      ref_verif_ints[0] = (int)(i0);                                     \
+      ref_verif_ints[1] = (int)(i1);                                     \
+      ref_verif_ints[2] = (int)(i2);                                     \
+      ref_verif_op_fcn((phase), (kind), (void *)(object), 3,             \
+                       ref_verif_ints);                                  \
+    }                                                                    \
+  }
+
+#endif /* NASA_REFINE_VERIF */
+
+#endif /* REF_VERIF_H */
